@@ -27,6 +27,7 @@ TIER_NOTE = {
  "C09": _T % "the decoder funnel harnesses k_dec_g1_compressed and k_dec_g2_*",
  "C12": _T % "k_conv_fq2_from_slice (content harness; the length harness stays)",
  "C13": _T % "k_conv_from_str_fq/fr, k_conv_fq2_from_slice",
+ "C17": _T % "L-sop4 (sum_of_products::<4> on the release IR, 120 paths)",
  "C18": _T % "k_dec_g1_compressed, k_dec_g2_*, k_conv_fq2_from_slice",
 }
 for p in allp:
